@@ -185,8 +185,14 @@ class Model:
                     self.cls_by_name[st.name].append(c)
                     for m in st.body:
                         if isinstance(m, ast.FunctionDef):
-                            f = Func('%s.%s' % (st.name, m.name), m, modname, rel, cls=c)
-                            c.methods[m.name] = f
+                            acc = [d_.attr for d_ in m.decorator_list if isinstance(d_, ast.Attribute) and d_.attr in ('setter', 'deleter')]
+                            if acc:
+                                # @name.setter / @name.deleter: a separate function that does not replace the property's getter under its name
+                                f = Func('%s.%s@%s' % (st.name, m.name, acc[0]), m, modname, rel, cls=c)
+                                c.methods['%s@%s' % (m.name, acc[0])] = f
+                            else:
+                                f = Func('%s.%s' % (st.name, m.name), m, modname, rel, cls=c)
+                                c.methods[m.name] = f
                             self.funcs[f.qn] = f
                             self._nested(f)
                         elif isinstance(m, ast.Assign) and len(m.targets) == 1 and isinstance(m.targets[0], ast.Name):
@@ -272,6 +278,33 @@ class Model:
             f.nested = {}
             self._modfuncs[mod] = f
         return self._modfuncs[mod]
+
+    def projections(self):
+        """Logical fields kept under another name or inside a sub-object: for a property whose getter is `return self.<f1>[.<f2>...]` the stored location IS the
+        property.  -> {(f1, ..., fk): (class name, property name)} for chains that one property only projects.  (A class may move `buy_quantity` into
+        `self._bought.quantity` and keep the name alive as a property: analyses keep talking about buy_quantity.)"""
+        if getattr(self, '_proj', None) is not None:
+            return self._proj
+        found = {}
+        for c in self.classes.values():
+            for n in c.node.body:
+                if not (isinstance(n, ast.FunctionDef) and any(isinstance(d, ast.Name) and d.id == 'property' for d in n.decorator_list)):
+                    continue
+                body = [s for s in n.body if not (isinstance(s, ast.Expr) and isinstance(s.value, ast.Constant))]
+                if len(body) != 1 or not isinstance(body[0], ast.Return) or body[0].value is None:
+                    continue
+                e, chain = body[0].value, []
+                while isinstance(e, ast.Attribute):
+                    chain.append(e.attr)
+                    e = e.value
+                if not (isinstance(e, ast.Name) and e.id == 'self' and chain):
+                    continue
+                chain = tuple(reversed(chain))
+                if len(chain) == 1 and not (chain[0].startswith('_') and chain[0].lstrip('_') == n.name):
+                    continue            # a one-step alias is taken only in the conventional form  name -> _name
+                found.setdefault(chain, []).append((c.name, n.name))
+        self._proj = {k: v[0] for k, v in found.items() if len(v) == 1}
+        return self._proj
 
     def ctor_only(self, m, depth=0):
         """a private helper all of whose call sites are in the constructor of its class (or in such helpers)"""
